@@ -503,7 +503,7 @@ def _impl(case, E):
             h.close()
         res['unbound_after'] = not any(T.bound_state())
         _after(E, T, yp, saved, answers, W, [objs] if ok else [])
-        res['retention'] = W.problems[:2]
+        res['retention'] = W.problems[:2]; res['sharing'] = W.hazards[:1]
         res['answers'] = answers
         res['asserted'] = _read_saved(E, yp, len(case['probes']))
         return res
@@ -528,7 +528,7 @@ def _impl(case, E):
         res['late'] = late
         res['unbound_after'] = not any(v._is_bound for v in E._VERIF_VARIABLES)
         _after(E, T, yp, saved, answers, W, [objs, args])
-        res['retention'] = W.problems[:2]
+        res['retention'] = W.problems[:2]; res['sharing'] = W.hazards[:1]
         res['answers'] = answers
         res['asserted'] = _read_saved(E, yp, len(case['probes']))
         return res
@@ -545,7 +545,7 @@ def _impl(case, E):
     res['late'] = None
     res['unbound_after'] = not any(v._is_bound for v in E._VERIF_VARIABLES)
     _after(E, T, yp, saved, answers, W)
-    res['retention'] = W.problems[:2]
+    res['retention'] = W.problems[:2]; res['sharing'] = W.hazards[:1]
     res['answers'] = answers
     return res
 
@@ -692,6 +692,8 @@ def compare(case, io, mo):
             return 'to_python of the findall bag is %r, model: %r' % (o['py'], exp_py)
         if _canon([o['after_rebind']]) != _canon([_zap_json(exp)]):
             return 'saved findall bag after re-binding is %s, model: %s' % (terms.show_term(o['after_rebind']), terms.show_term(_zap_json(exp)))
+        if io.get('sharing'):
+            return io['sharing'][0]
         return None
     if len(io['answers']) != len(ma):
         return 'implementation has %d answers, model %d' % (len(io['answers']), len(ma))
@@ -713,6 +715,8 @@ def compare(case, io, mo):
     exp_asserted = [_canon([terms.obs_term(p['gv'][1]) for p in alt]) for alt in ma]
     if io.get('asserted') != exp_asserted:
         return 'asserted terms read back as %r, model: %r' % (io.get('asserted'), exp_asserted)
+    if io.get('sharing'):
+        return io['sharing'][0]
     return None
 
 def nontrivial(case, io):
